@@ -125,7 +125,7 @@ func (decWorld) Gen(prop, tier string, idx int, r *Rng) *Trace {
 		cj, _ := json.Marshal(cfg)
 		return &Trace{World: "W-DEC", Cfg: cj, Ops: ops}
 	}
-	fams := []string{"p1", "p2", "p1", "p2", "xp2", "xp1", "xw"}
+	fams := []string{"p1", "p2", "p1", "p2", "xp2", "xp1", "xw", "xk", "xc"}
 	nClaims := r.Range(1, 3)
 	for i := 0; i < nClaims; i++ {
 		pf := fams[r.Intn(len(fams))]
@@ -601,6 +601,14 @@ var decEntries = []decEntry{
 		c, err := psatoken.DecodeAndValidateClaimsFromJSON(b)
 		return func() { postClaims(c) }, err
 	}},
+	{"DecodeUnvalidatedJSONClaims (deprecated)", func(b []byte, st *decState) (func(), error) {
+		c, err := psatoken.DecodeUnvalidatedJSONClaims(b) //nolint:staticcheck
+		return func() { postClaims(c) }, err
+	}},
+	{"DecodeJSONClaims (deprecated)", func(b []byte, st *decState) (func(), error) {
+		c, err := psatoken.DecodeJSONClaims(b) //nolint:staticcheck
+		return func() { postClaims(c) }, err
+	}},
 	{"P1Claims.UnmarshalCBOR", func(b []byte, st *decState) (func(), error) {
 		c := &psatoken.P1Claims{CanonicalProfile: psatoken.Profile1Name}
 		err := c.UnmarshalCBOR(b)
@@ -688,6 +696,26 @@ var decEntries = []decEntry{
 	}},
 	{"XWClaims.UnmarshalJSON(PopulateStructFromJSON)", func(b []byte, st *decState) (func(), error) {
 		c := XWProfile{}.GetClaims().(*XWClaims)
+		err := c.UnmarshalJSON(b)
+		return func() { postClaims(c) }, err
+	}},
+	{"XKClaims.UnmarshalCBOR(PopulateStructFromCBOR)", func(b []byte, st *decState) (func(), error) {
+		c := XKProfile{}.GetClaims().(*XKClaims)
+		err := c.UnmarshalCBOR(b)
+		return func() { postClaims(c) }, err
+	}},
+	{"XKClaims.UnmarshalJSON(PopulateStructFromJSON)", func(b []byte, st *decState) (func(), error) {
+		c := XKProfile{}.GetClaims().(*XKClaims)
+		err := c.UnmarshalJSON(b)
+		return func() { postClaims(c) }, err
+	}},
+	{"P2Claims with SwComponents[*XSwExt].UnmarshalCBOR", func(b []byte, st *decState) (func(), error) {
+		c := XCProfile{}.GetClaims().(*psatoken.P2Claims)
+		err := c.UnmarshalCBOR(b)
+		return func() { postClaims(c) }, err
+	}},
+	{"P2Claims with SwComponents[*XSwExt].UnmarshalJSON", func(b []byte, st *decState) (func(), error) {
+		c := XCProfile{}.GetClaims().(*psatoken.P2Claims)
 		err := c.UnmarshalJSON(b)
 		return func() { postClaims(c) }, err
 	}},
